@@ -38,7 +38,23 @@ BOUNDS = (
     "name_exists, get_node) is compared with the model. dns.serial.Serial: +, <, >, <=, >=, == "
     "against RFC 1982 on the 15x15 boundary grid plus seeded pairs. Ended and read-only "
     "transactions: 13 public methods each, per variant. Fresh empty zone with a plain "
-    "writer(), per variant. Not covered: multi-threaded use (C12), rdata types outside the "
+    "writer(), per variant. APEX RECORDS THROUGH EVERY OWNER SPELLING (clause apex_owner_spellings, "
+    "judged by the same model and the same per-operation view / read-your-writes / commit / rollback "
+    "comparisons): on all 6 variants x bases {apex, small} (thorough: + rich) x the 4 spellings of the "
+    "apex (dns.name.empty, absolute Name, '@', 'example.') each of 30 operations alone - add and "
+    "replace of the SOA with a changed serial in the 3 argument forms, replace by the same SOA with "
+    "another TTL, add/replace of apex NS/TXT/A, delete and delete_exact of the SOA rdata (the one "
+    "present / another serial) as rdata, rdataset and rrset, of type SOA, of NS rdata(sets), "
+    "update_serial(+1, name=spelling), and add/replace of an SOA at two non-origin names (expected: "
+    "ValueError, zone and view unchanged) - committed, and (quick: every third run) ended by raise / "
+    "check-callback raise / rollback / propagate; 7 two-operation sequences on the apex SOA (replace "
+    "then add, add then delete_exact, replace then update_serial, delete type then add, delete name "
+    "then replace, refused non-origin SOA then replace, delete SOA rdata then add NS) for all 16 "
+    "spelling pairs (quick: 3 variants per pair, alternating; thorough: all 6); seeded sequences of "
+    "2-12 operations, 70% from an apex generator (SOA add/replace with serial steps +1/+2/+2^31-1 or "
+    "boundary serials, other apex rrsets, deletes of the SOA rdata last written, update_serial, SOA at "
+    "a non-origin name) and 30% from the general generator, own generator seeded from the run's seed "
+    "(quick 220, thorough <= 6000 in 40 s). Not covered: multi-threaded use (C12), rdata types outside the "
     "pool, $ORIGIN-less zones."
 )
 
@@ -521,7 +537,9 @@ class _Zones:
         self.z.pop((kind, relativize), None)
 
 
-def _run_one(R, zones, kind, relativize, base_id, ops, mode, stats, sample=False):
+def _run_one(R, zones, kind, relativize, base_id, ops, mode, stats, sample=False, section=None):
+    """``section``: (clause, tag) of a section that reports what it finds under a clause of its
+    own; its runs are counted under that clause as well as under the ordinary ones."""
     replay = {"kind": kind, "relativize": relativize, "base": base_id, "ops": ops, "mode": mode}
     try:
         with M.watchdog(20):
@@ -555,9 +573,17 @@ def _run_one(R, zones, kind, relativize, base_id, ops, mode, stats, sample=False
     elif ended in ("exception", "rollback"):
         R.case("C10.rollback_atomic", key=key)
     stats["seq"] += 1
-    if sample:
+    if section is not None:
+        R.case(section[0], key=key, nontrivial=st["ops"] > 0)
+        if sample:
+            R.sample(section[0], replay)
+    elif sample:
         R.sample("C10.model_commit" if ended == "commit" else "C10.rollback_atomic", replay)
     for clause, what, sig in fails:
+        if section is not None:
+            sig = dict(sig, aspect=clause.split(".", 1)[1])
+            what = f"[{section[1]}] {what}"
+            clause = section[0]
         R.violation(clause, what, sig=sig, replay=replay)
     if fails:
         zones.drop(kind, relativize)
@@ -649,6 +675,187 @@ def _seeded(R, zones, stats, count, budget_s):
         else:
             mode = {"m": "propagate"}
         _run_one(R, zones, kind, rel, base_id, ops, mode, stats, sample=s < 2)
+
+
+# ---------------------------------------------------------------- apex records, owner spellings
+
+CL_APEX = "C10.apex_owner_spellings"
+_BASE_SERIAL = {"apex": 10, "small": 2**32 - 1, "rich": 2**31 - 1}
+_APEX_SERIALS = [1, 5, 10, 77, 2**31 - 1, 2**31, 2**32 - 1]
+
+
+def _soa(serial):
+    return "soa:" + str(serial % 2**32)
+
+
+def apex_ops(base_id, sp):
+    """Every way of writing or removing an apex record (SOA included, with serial changes)
+    with the owner in spelling ``sp``, and SOAs at two non-origin names (which the model
+    refuses with ValueError, the zone unchanged)."""
+    s0 = _BASE_SERIAL[base_id]
+    b = {"n": 0, "sp": sp}
+    ops = []
+    for i, form in enumerate(("ttl_rdata", "rdataset", "rrset")):
+        ops.append(dict(b, op="add", form=form, ttl=(100, 7200, 3600)[i], rds=[_soa(s0 + 1 + i)]))
+        ops.append(dict(b, op="replace", form=form, ttl=(3600, 900, 0)[i], rds=[_soa(s0 + 2**31 - 1 - i)]))
+    ops += [
+        dict(b, op="replace", form="rdataset", ttl=900, rds=[_soa(s0)]),  # the same SOA, another TTL
+        dict(b, op="add", form="ttl_rdata", ttl=300, rds=["n2"]),
+        dict(b, op="replace", form="rdataset", ttl=60, rds=["n2"]),
+        dict(b, op="add", form="rrset", ttl=100, rds=["t1"]),
+        dict(b, op="replace", form="ttl_rdata", ttl=50, rds=["a1"]),
+        dict(b, op="delete", form="rdata", rds=[_soa(s0)]),
+        dict(b, op="delete", form="rdata", rds=[_soa(s0 + 1)]),  # not the SOA of the zone: nothing happens
+        dict(b, op="delete", form="rdataset", rds=[_soa(s0)]),
+        dict(b, op="delete", form="rrset", rds=[_soa(s0)]),
+        dict(b, op="delete_exact", form="rdata", rds=[_soa(s0)]),
+        dict(b, op="delete_exact", form="rdata", rds=[_soa(s0 + 1)]),  # DeleteNotExact
+        dict(b, op="delete_exact", form="rrset", rds=[_soa(s0)]),
+        dict(b, op="delete", form="type", type="SOA"),
+        dict(b, op="delete_exact", form="type", type="SOA"),
+        dict(b, op="delete", form="rdata", rds=["n1"]),
+        dict(b, op="delete_exact", form="rdata", rds=["n1"]),
+        dict(b, op="delete_exact", form="rdataset", rds=["n1", "n2"]),
+        {"op": "serial", "value": 1, "relative": True, "sp": sp},
+    ]
+    for n in (1, 5):
+        for kind, form in (("add", "ttl_rdata"), ("replace", "rdataset"), ("add", "rrset")):
+            ops.append({"op": kind, "n": n, "sp": sp, "form": form, "ttl": 300, "rds": [_soa(s0 + 1)]})
+    return ops
+
+
+def apex_pairs(base_id, s1, s2):
+    """Two operations on the apex SOA, the owner spelled ``s1`` in the first and ``s2`` in the
+    second."""
+    s0 = _BASE_SERIAL[base_id]
+    a = {"n": 0, "sp": s1}
+    b = {"n": 0, "sp": s2}
+    return [
+        [dict(a, op="replace", form="rdataset", ttl=300, rds=[_soa(s0 + 1)]), dict(b, op="add", form="ttl_rdata", ttl=900, rds=[_soa(s0 + 2)])],
+        [dict(a, op="add", form="rrset", ttl=300, rds=[_soa(s0 + 1)]), dict(b, op="delete_exact", form="rdata", rds=[_soa(s0 + 1)])],
+        [dict(a, op="replace", form="ttl_rdata", ttl=300, rds=[_soa(2**31 - 1)]), {"op": "serial", "value": 2**31 - 1, "relative": True, "sp": s2}],
+        [dict(a, op="delete", form="type", type="SOA"), dict(b, op="add", form="rdataset", ttl=300, rds=[_soa(s0 + 1)])],
+        [dict(a, op="delete", form="name"), dict(b, op="replace", form="rrset", ttl=300, rds=[_soa(s0 + 1)])],
+        [{"op": "add", "n": 2, "sp": s1, "form": "ttl_rdata", "ttl": 300, "rds": [_soa(s0 + 1)]}, dict(b, op="replace", form="ttl_rdata", ttl=300, rds=[_soa(s0 + 1)])],
+        [dict(a, op="delete", form="rdata", rds=[_soa(s0)]), dict(b, op="add", form="ttl_rdata", ttl=300, rds=["n2"])],
+    ]
+
+
+def random_apex_op(rng, state):
+    """An operation on an apex record, or an SOA at a non-origin name.  ``state["serial"]``
+    follows the serial the sequence last wrote, so that deletions of the SOA rdata often
+    name the SOA that is there."""
+    sp = rng.choice(_SPELLINGS)
+    r = rng.random()
+    b = {"n": 0, "sp": sp}
+
+    def serial():
+        return state["serial"] if rng.random() < 0.4 else rng.choice(_APEX_SERIALS)
+
+    if r < 0.12:
+        # an SOA somewhere else: refused
+        return {
+            "op": rng.choice(["add", "replace"]),
+            "n": rng.randrange(1, 6),
+            "sp": sp,
+            "form": rng.choice(["ttl_rdata", "rdataset", "rrset"]),
+            "ttl": rng.choice(_TTLS),
+            "rds": [_soa(rng.choice(_APEX_SERIALS))],
+        }
+    if r < 0.45:
+        v = (state["serial"] + rng.choice([1, 2, 2**31 - 1])) % 2**32 if rng.random() < 0.6 else rng.choice(_APEX_SERIALS)
+        state["serial"] = v
+        return dict(b, op=rng.choice(["add", "replace"]), form=rng.choice(["ttl_rdata", "rdataset", "rrset"]), ttl=rng.choice(_TTLS), rds=[_soa(v)])
+    if r < 0.60:
+        form = rng.choice(["ttl_rdata", "rdataset", "rrset"])
+        t = rng.choice(["NS", "TXT", "A", "MX"])
+        pool = _TYPE_RDS[t]
+        rds = rng.sample(pool, rng.randint(1, len(pool))) if form != "ttl_rdata" else [rng.choice(pool)]
+        return dict(b, op=rng.choice(["add", "replace"]), form=form, ttl=rng.choice(_TTLS), rds=rds)
+    if r < 0.68:
+        return {"op": "serial", "value": rng.choice([1, 2, 2**31 - 1]), "relative": True, "sp": rng.choice(["default"] + _SPELLINGS)}
+    kind = "delete" if rng.random() < 0.5 else "delete_exact"
+    form = rng.choice(["rdata", "rdata", "rdataset", "rrset", "type", "name"])
+    op = dict(b, op=kind, form=form)
+    if form == "type":
+        op["type"] = rng.choice(["SOA", "NS", "TXT"])
+        op["tystr"] = rng.random() < 0.5
+    elif form != "name":
+        if rng.random() < 0.6:
+            op["rds"] = [_soa(serial())]
+        else:
+            pool = _TYPE_RDS[rng.choice(["NS", "TXT"])]
+            op["rds"] = [rng.choice(pool)] if form == "rdata" else rng.sample(pool, rng.randint(1, len(pool)))
+    return op
+
+
+def _apex_spellings(R, zones, stats):
+    """Apex records through every owner spelling.  Own generator, seeded from the run's
+    seed: the sections before this one end on time limits, R.rng is then no fixed point."""
+    import random
+
+    rng = random.Random(f"C10.apex/{R.seed}")
+    sec = (CL_APEX, "apex records, owner spellings")
+    bases = ("apex", "small") if R.quick else ("apex", "small", "rich")
+    n0 = stats["seq"]
+    # every operation alone
+    i = 0
+    for base_id in bases:
+        for sp in _SPELLINGS:
+            for op in apex_ops(base_id, sp):
+                for kind, rel in M.VARIANTS:
+                    i += 1
+                    modes = [{"m": "commit"}]
+                    if not R.quick or i % 3 == 0:
+                        modes += [{"m": ("raise_after", "check_raise", "rollback", "propagate")[(i // 3) % 4], "k": (i // 12) % 2}]
+                    for mode in modes:
+                        _run_one(R, zones, kind, rel, base_id, [op], mode, stats, sample=stats["seq"] == n0, section=sec)
+            if R.deadline():
+                R.note("C10 apex spellings: deadline in the single operations")
+                return
+    # two operations, every pair of spellings
+    j = jp = 0
+    for s1 in _SPELLINGS:
+        for s2 in _SPELLINGS:
+            jp += 1
+            for vi, (kind, rel) in enumerate(M.VARIANTS):
+                if R.quick and (vi + jp) % 2:
+                    continue  # quick: every other variant per pair of spellings, alternating
+                base_id = bases[(j + vi) % len(bases)]
+                for seq in apex_pairs(base_id, s1, s2):
+                    j += 1
+                    modes = [{"m": "commit"}]
+                    if not R.quick or j % 4 == 0:
+                        modes.append({"m": "raise_after", "k": 1 + (j // 4) % 2})
+                    for mode in modes:
+                        _run_one(R, zones, kind, rel, base_id, seq, mode, stats, section=sec)
+            if R.deadline():
+                R.note("C10 apex spellings: deadline in the pairs")
+                return
+    # seeded sequences: mostly apex operations, some of the general generator
+    count, t_end = (220, R.elapsed() + 2.5) if R.quick else (6000, R.elapsed() + 40.0)
+    for s in range(count):
+        if R.deadline() or R.elapsed() > t_end:
+            R.note(f"C10 apex spellings: seeded stopped at {s}/{count}")
+            break
+        kind, rel = M.VARIANTS[s % 6]
+        base_id = ("rich", "small", "apex")[(s // 6) % 3]
+        state = {"serial": _BASE_SERIAL[base_id]}
+        length = rng.choice([2, 3, 5, 8, 12])
+        ops = [random_apex_op(rng, state) if rng.random() < 0.7 else random_op(rng) for _ in range(length)]
+        r = rng.random()
+        if r < 0.5:
+            mode = {"m": "commit"}
+        elif r < 0.7:
+            mode = {"m": "raise_after", "k": rng.randrange(length + 1)}
+        elif r < 0.8:
+            mode = {"m": "rollback", "k": rng.randrange(length + 1)}
+        elif r < 0.9:
+            mode = {"m": "check_raise", "k": rng.randrange(length + 1)}
+        else:
+            mode = {"m": "propagate"}
+        _run_one(R, zones, kind, rel, base_id, ops, mode, stats, section=sec)
+    R.note(f"C10 apex spellings: {stats['seq'] - n0} sequences")
 
 
 # ---------------------------------------------------------------- ended / read-only
@@ -971,6 +1178,7 @@ def run(R):
         R.guard("C10.seeded", _seeded, R, zones, stats, 1500, 14.0)
     else:
         R.guard("C10.seeded", _seeded, R, zones, stats, 40000, 200.0)
+    R.guard(CL_APEX, _apex_spellings, R, zones, stats)
     R.note(f"C10 sequences run: {stats['seq']}")
 
 
